@@ -72,6 +72,7 @@ def typeOf (te : TyEnv) : Expr → Ty
   | .ite _ a b => if typeOf te a = typeOf te b then typeOf te a else .int
   | .abs _ => .int                       -- `(x)>0?(x):-(x)`: the negation is an `int`
   | .mm _ a b => if typeOf te a = typeOf te b then typeOf te a else .int
+  | .toStr _ => .string                  -- `String(x)`
 
 def eval (te : TyEnv) (s : Store) (e : Expr) (m : Mode := .strict) : Except Err Val :=
   match e with
@@ -93,6 +94,8 @@ def eval (te : TyEnv) (s : Store) (e : Expr) (m : Mode := .strict) : Except Err 
   -- evaluated a second time; expressions of this language are pure, so the second evaluation yields the value of the first
   | .abs a => do let x ← eval te s a m; if x.toInt > 0 then pure (.int x.toInt) else chk (-x.toInt)
   | .mm k a b => do let x ← eval te s a m; let y ← eval te s b m; pure (conv (typeOf te (.mm k a b)) (k.cpick x y))
+  -- `String(x)`: the constructor for the static type of `x` (`Val.text`: decimal digits of an int, 1 / 0 of a bool, a copy of a String)
+  | .toStr a => do let x ← eval te s a m; pure (.str x.text)
 
 open Py (Flow St)
 
